@@ -273,10 +273,74 @@ def exec_for(I, s, env):
 from .interp import _Break as T_Break, _Continue as T_Continue  # noqa: E402
 
 
+def _target_names(t):
+    return [n.id for n in ast.walk(t) if isinstance(n, ast.Name)]
+
+
+def _stored_through(body, nm):
+    """is the name written in place (subscript store / augmented assignment) in the body?"""
+    for n in ast.walk(ast.Module(body=body, type_ignores=[])):
+        tg = []
+        if isinstance(n, ast.Assign):
+            tg = n.targets
+        elif isinstance(n, ast.AugAssign):
+            tg = [n.target]
+            if isinstance(n.target, ast.Name) and n.target.id == nm:
+                return True
+        for t in tg:
+            b = t
+            sub_ = False
+            while isinstance(b, ast.Subscript):
+                b, sub_ = b.value, True
+            if sub_ and isinstance(b, ast.Name) and b.id == nm:
+                return True
+    return False
+
+
+def _rows_written(I, s, env, it, i):
+    """[(target name, position in the element tuple or None, parent array, names bound to the parent)] for loop variables
+    that are row views of an array (for row in X / for k, row in enumerate(X)) and are written in place in the body"""
+    tn = [nm for nm in _target_names(s.target) if _stored_through(s.body, nm)]
+    if not tn:
+        return []
+    saved_side = T.SIDE
+    T.SIDE = None            # a probe: no side conditions are recorded for it
+    try:
+        probe = it.elem(i)
+    except Exception:
+        return []
+    finally:
+        T.SIDE = saved_side
+    out = []
+    items = list(probe) if isinstance(probe, tuple) else [probe]
+    tnames = _target_names(s.target)
+    for pos, v in enumerate(items):
+        rv = getattr(v, "rowview_of", None) if isinstance(v, Arr) else None
+        if rv is None or not T.equal(P(rv[1]), P(i)):
+            continue
+        if pos >= len(tnames) or tnames[pos] not in tn:
+            continue
+        parent = rv[0]
+        bound = []
+        e = env
+        while e is not None:
+            bound += [k for k, val in e.local.items() if val is parent]
+            e = e.parent
+        if not bound:
+            raise ModelError("in-place write through a row of an array that no local name refers to")
+        out.append((tnames[pos], pos if isinstance(probe, tuple) else None, parent, bound))
+    if len(out) != len(tn):
+        raise ModelError("loop variable written in place is not a row view of a named array")
+    return out
+
+
 def symbolic_for(I, s, env, it, n):
     names, attrs, appends = written_locations(s.body)
     i = T.fresh("i")
     iname = T.symname(i)
+    rows = _rows_written(I, s, env, it, i)
+    for _t, _p, _par, bound in rows:
+        names |= set(bound)
     # ---- install placeholders
     saved = {}
     ph = {}
@@ -324,6 +388,15 @@ def symbolic_for(I, s, env, it, n):
     if guard is not None:
         I.assumed.add(guard(i))
     elem = it.elem(i)
+    for tname, pos, parent, bound in rows:
+        # the row variable views the loop-carried (placeholder) state of its array
+        cur = env.lookup(bound[0])
+        row = cur[i]
+        row.loop_row = True
+        if pos is None:
+            elem = row
+        else:
+            elem = tuple(row if k == pos else x for k, x in enumerate(elem))
     I.assign(s.target, elem, env)
     pathlen = len(I.path)
     try:
@@ -334,6 +407,15 @@ def symbolic_for(I, s, env, it, n):
         raise ModelError("break inside a summarised loop")
     if len(I.path) != pathlen:
         raise ModelError("data-dependent branch inside a summarised loop")
+    for tname, pos, parent, bound in rows:
+        # write the row back: X[i] = row   (then summarised by the indexed-store rule)
+        rowv = env.lookup(tname)
+        if not isinstance(rowv, Arr):
+            raise ModelError("row variable '%s' rebound to a non-array" % tname)
+        cur = env.lookup(bound[0])
+        new = cur.setitem((i,), rowv.view())
+        for b in bound:
+            set_name(env, b, new)
     # ---- summarise
     GUARD[0] = guard
     try:
